@@ -707,6 +707,13 @@ func (se *symExec) execAssign(x *ast.AssignStmt, st *sstate) []*sstate {
 				if _, taken := se.params[obj]; !taken {
 					se.params[obj] = se.canon(x.Rhs[i])
 				}
+			case *types.Slice:
+				// a slice header is a copy: only when the function never assigns the field it was read from
+				if sel, ok := unparen(x.Rhs[i]).(*ast.SelectorExpr); ok && !se.fieldAssignedNear(x.Pos(), sel.Sel.Name) {
+					if _, taken := se.params[obj]; !taken {
+						se.params[obj] = se.canon(x.Rhs[i])
+					}
+				}
 			}
 		}
 	}
@@ -749,6 +756,34 @@ func noFlagLeaves(e ast.Expr) bool {
 		return true
 	}
 	return false
+}
+
+// fieldAssignedNear: the function declaration around pos assigns some x.<field>.
+func (se *symExec) fieldAssignedNear(pos token.Pos, field string) bool {
+	for _, f := range se.c.Files(se.p) {
+		if pos < f.Pos() || pos > f.End() {
+			continue
+		}
+		for _, d := range f.Decls {
+			fd, ok := d.(*ast.FuncDecl)
+			if !ok || fd.Body == nil || pos < fd.Pos() || pos > fd.End() {
+				continue
+			}
+			found := false
+			ast.Inspect(fd.Body, func(n ast.Node) bool {
+				if as, ok := n.(*ast.AssignStmt); ok {
+					for _, l := range as.Lhs {
+						if sel, ok := unparen(l).(*ast.SelectorExpr); ok && sel.Sel.Name == field {
+							found = true
+						}
+					}
+				}
+				return !found
+			})
+			return found
+		}
+	}
+	return true
 }
 
 func isPurePath(e ast.Expr) bool {
